@@ -52,6 +52,16 @@ CLAIMS = {
             "(LF/CRLF/mixed/no final newline, tags embedded in text, several comments, malformed dates, invalid UTF-8, 13 epochs) and a masked-diff oracle.",
             "Modelled, not verified: regex leftmost-first semantics for the two concrete patterns, chrono's parser and calendar (Date.v), Unicode White_Space; validated by the differential run. "
             "Idempotence of the javadoc handler is decided under C07.", "DESIGN.md section 5-C06"),
+    "C11": ("Coq theorems about a labelled transition system of the controller/worker protocol (FIFO job queue, one quit message per worker, per-worker statistics, merge by Stats::add; "
+            "add_one arms and the merged field list regenerated from the source), for EVERY worker count, job list and schedule (arbitrary list of receive/finish events): a run that ends "
+            "has processed every job exactly once, every worker has exited and handed in one result; no reachable state is stuck before the end and no run is longer than twice the number "
+            "of messages; the printed totals are the sums over all processed jobs however they were spread over the workers; with jobs that do not interfere, the final tree, the per-job "
+            "results and hence the totals are those of the serial run. Tied to the code by comparing, on one tree (all handlers, malformed files, hard links within/across directories, a "
+            "non-UTF-8 directory, hundreds to thousands of entries), the serial run with -jN for N from 1 to far above the job count, real and --check, and with reordered / duplicated / "
+            "overlapping arguments (state without inode numbers, exit status, totals), and by replaying strace'd schedules of real parallel runs through the extracted model.",
+            "Modelled, not verified: job processing is atomic in the model and jobs on different inodes are taken not to interfere (hypothesis `commute`, backed by the C13 frame theorems, not "
+            "derived from them); the controller's walk is taken to produce the serial job list (true for non-overlapping arguments; the runs cover overlapping ones); socket capacity and "
+            "blocking are not modelled (the pre-filled queue admits every real schedule); worker death is C19.", "DESIGN.md section 5-C11"),
     "C13": ("Coq theorems: (walk) for every list of entries, handler list, mode and single fault, a name that is neither a matching non-temp-named entry nor its hidden temp name is bound "
             "after the walk exactly as before; entries that are temp-named, not regular (symlinks, directories, FIFOs, sockets) or match no enabled handler cause no operation at all; (run) "
             "one handler on one file leaves every other name and every other pre-existing inode unchanged, for any link count, result and fault; (--brp) unset/empty/root build roots are refused "
